@@ -85,7 +85,17 @@ var OpNames = []string{"start", "send", "sendwait", "recv", "close", "wgadd", "w
 
 type VC map[string]int
 
+// vcOff: set for the duration of a Run whose strategy does not read vector clocks (replay / bounded search):
+// clock maintenance is quadratic in the number of goroutines and dominates long executions otherwise.
+var vcOff bool
+
+// ClockFree is implemented by strategies that never look at GView.VC / ObjVC.
+type ClockFree interface{ ClockFree() bool }
+
 func joinInto(dst, src VC) {
+	if vcOff {
+		return
+	}
 	for k, v := range src {
 		if dst[k] < v {
 			dst[k] = v
@@ -93,6 +103,9 @@ func joinInto(dst, src VC) {
 	}
 }
 func copyVC(src VC) VC {
+	if vcOff {
+		return nil
+	}
 	m := make(VC, len(src)+1)
 	for k, v := range src {
 		m[k] = v
@@ -205,7 +218,10 @@ func Run(body func(), st Strategy) *Sched {
 	}
 	s := newSched(st)
 	cur = s
-	defer func() { cur = nil }()
+	if cf, ok := st.(ClockFree); ok && cf.ClockFree() {
+		vcOff = true
+	}
+	defer func() { cur = nil; vcOff = false }()
 	root := &G{id: "0", resume: make(chan bool), vc: VC{}}
 	s.gs = append(s.gs, root)
 	s.sorted = append(s.sorted, root)
@@ -214,7 +230,11 @@ func Run(body func(), st Strategy) *Sched {
 	return s
 }
 
-func (g *G) tick() { g.vc[g.id]++ }
+func (g *G) tick() {
+	if !vcOff {
+		g.vc[g.id]++
+	}
+}
 
 func (s *Sched) launch(g *G, f func()) {
 	g.kind = OpStart
@@ -268,15 +288,49 @@ func (s *Sched) enabled(g *G) bool {
 	return false
 }
 
+// FamilyAffinity changes the canonical order of the enabled list (see loop); set by a harness around its
+// exploration, never while an execution is running.
+var FamilyAffinity bool
+
+func family(id string) string {
+	dots := 0
+	for i := 0; i < len(id); i++ {
+		if id[i] == '.' {
+			dots++
+			if dots == 2 {
+				return id[:i]
+			}
+		}
+	}
+	return id
+}
+
 func (s *Sched) loop() {
 	for {
 		var en []*G
 		if s.last != nil && s.enabled(s.last) {
 			en = append(en, s.last)
 		}
-		for _, g := range s.sorted {
-			if g != s.last && s.enabled(g) {
-				en = append(en, g)
+		if FamilyAffinity && s.last != nil {
+			// harnesses of concurrent top-level calls: after the goroutine that ran last, the goroutines of the
+			// same call (same "0.k" prefix) come first, so that the default continuation stays inside one call
+			// until nothing of it is enabled — "run the other caller now" is then a single deviation
+			fam := family(s.last.id)
+			for _, g := range s.sorted {
+				if g != s.last && family(g.id) == fam && s.enabled(g) {
+					en = append(en, g)
+				}
+			}
+			for _, g := range s.sorted {
+				if g != s.last && family(g.id) != fam && s.enabled(g) {
+					en = append(en, g)
+				}
+			}
+		} else {
+			for _, g := range s.sorted {
+				if g != s.last && s.enabled(g) {
+					en = append(en, g)
+				}
 			}
 		}
 		if len(en) == 0 {
@@ -310,12 +364,15 @@ func (s *Sched) loop() {
 			s.abortAll()
 			return
 		}
-		view := make([]GView, 0, len(s.sorted))
-		for _, g := range s.sorted {
-			if g.done {
-				continue
+		var view []GView
+		if !vcOff { // clock-free strategies decide from the enabled list alone
+			view = make([]GView, 0, len(s.sorted))
+			for _, g := range s.sorted {
+				if g.done {
+					continue
+				}
+				view = append(view, GView{ID: g.id, Enabled: s.enabled(g), Kind: g.kind, Obj: g.obj, VC: g.vc, ObjVC: pendingObjVC(g)})
 			}
-			view = append(view, GView{ID: g.id, Enabled: s.enabled(g), Kind: g.kind, Obj: g.obj, VC: g.vc, ObjVC: pendingObjVC(g)})
 		}
 		ids := make([]string, len(en))
 		for i, g := range en {
